@@ -25,6 +25,7 @@ THEOREMS = [
     "Mesa.Viz.C20_draw_kwargs",
     "Mesa.Viz.C20_hex_marker_at_hexagon_centre",
     "Mesa.Viz.C20_distinct_locations_distinct_positions",
+    "Mesa.Viz.C20_markers_inside_the_limits",
     "Mesa.Viz.C20_network_markers_at_layout_positions",
     "Mesa.Viz.C20_altair_one_row_per_agent",
     "Mesa.Viz.C20_altair_row_values",
@@ -80,7 +81,7 @@ RULE = ("12% ctrl scenarios: the real SolaraViz on a model class taking **kw tha
         "agents never placed, a pool of 0-4 portrayal dict *objects* shared between agents (keys color/size/marker/zorder, colours as names and as RGB(A) tuples — none / all / mixed —, the optional "
         "alpha/edgecolors/linewidths under an all/none/some policy, unsupported keys), interleaved place/move/remove/dict-rewrite/"
         "re-portray ops and observations collect_agent_data / draw_space (Agg; also with plotting keywords alpha / edgecolors / linewidths; on networks also with a caller-supplied layout algorithm — a table node -> position over most / all / more than the nodes, distinct or coinciding positions, rarely empty — and keywords for it) / Altair _draw_grid (rows, encoded channels, x/y type, tooltip fields, default "
-        "mark size) / the solara components SpaceMatplotlib and SpaceAltair with the portrayal and with their default portrayals / heap dump / the default marker size (all agents drawn with an empty portrayal) / property layers "
+        "mark size) / the solara components SpaceMatplotlib and SpaceAltair with the portrayal and with their default portrayals / heap dump / the axis limits draw_space asks for / the default marker size (all agents drawn with an empty portrayal) / property layers "
         "(1-3 named layers, requests of 1-4 entries in any order incl. names the space has no layer for; colour or colormap or neither; "
         "alpha absent / 25 / 50 / 100 %; range automatic, one-sided, explicit incl. without extent, cutting the data and inverted; colour bar "
         "absent / on / off; constant layers; float and int layers; drawn repeatedly; on non-grid classes), including observations of the space without agents; "
@@ -186,6 +187,8 @@ def tags(sc, obs):
                     yield "branch:observe-empty-space"
                 if o.startswith("err"):
                     yield "result:" + o
+            if w[0] == "frame":
+                yield "frame:" + (o if not o.startswith("ok x") else "degenerate-limits" if re.search(r"=(\S+)\.\.\1( |$)", o) else "ok")
             if w[0] == "drawnet":
                 yield "drawnet:" + (" ".join(o.split()[:2]) if o.startswith("err") else "same-position-twice" if len(set(t.split(":", 1)[1] for t in w[1:])) < len(w) - 1
                                     else "ok")
